@@ -68,7 +68,7 @@ func Run(c *core.Ctx, replay string) (*core.Result, error) {
 		progs = []*absprog.Prog{&rc.Prog}
 		seed = rc.Seed
 	} else {
-		progs = c02.Programs(c.Seed, nProg, func(o *absprog.Opts, rng *rand.Rand) { o.OddEnumValues = true })
+		progs = c02.Programs(c.Seed, nProg, func(o *absprog.Opts, rng *rand.Rand) { o.OddEnumValues = true; o.DigitKeys = true })
 		// every field kind alone in its file: nothing it needs can come from a neighbour
 		for _, te := range absprog.MinimalKinds() {
 			progs = append(progs, absprog.Minimal(len(progs)+1, te))
